@@ -34,6 +34,21 @@ def run(chk):
                     # only disagreements that the one-shard free-running baseline does not show belong to C05
                     rep["by_sig"] = {s: v for s, v in rep["by_sig"].items() if s not in base_sigs}
                     chk.classify("tracker", args, rep)
+    # VisualSORT with appearance features: the votes of a detection arrive in the chunks of several shard workers, in the
+    # order the scheduler lets the workers finish; claim weights (which refer to the largest distance of the whole stream)
+    # and winners must not depend on it
+    rv, cv = tc.generate_visual(chk, "v-sim7-sched", depth=7, Sim=6, MaxObs=3, simulate={"num": 15 if quick else 200, "depth": 8})
+    for kind in (("visual",) if quick else ("visual", "batchvisual")):
+        base = vlib.run_vh(tc.visual_args(cv, kind, 1, "all"), [rv.out])
+        for n in ((2, 3) if quick else (2, 3, 5, 8)):
+            for pol in (("rand",) if quick else ("rev", "rand")):
+                args = tc.visual_args(cv, kind, n, "all") + ["--sched", pol, "--seed", str(chk.seed + n)]
+                rep = vlib.run_vh(args, [rv.out])
+                rep["nontrivial"] = rep["counters"].get("nt_C05", 0)
+                chk.add_report(f"v-sim7-sched:{kind}:shards={n}:{pol}", rep)
+                rep["by_sig"] = {s: x for s, x in rep["by_sig"].items()
+                                 if s not in base["by_sig"] or base["by_sig"][s]["count"] != x["count"]}
+                chk.classify("tracker", args, rep)
     # slow workers: now and then a worker's step is granted more than a second late (a result that arrives late is still
     # the result); few long behaviours, since every late step costs its delay
     r, c = tc.generate(chk, "sim30-slow", depth=30, MaxIdle=1, sim=6, simulate={"num": 4 if quick else 24, "depth": 31})
